@@ -64,6 +64,13 @@ def make_pool(rng, size):
             eds = list(c09.edits(base))
             rule, pc, g = rng.choice(eds) if rng.random() > 0.08 else [e for e in eds if e[0] == "empty-game"][0]
             pool.append((names[i], "malformed:" + rule, g))
+    # a small game whose distribution is exact as rationals but sums to 1 +- one ulp in doubles (in some listing order)
+    if rng.random() < 0.4 and len(pool) < len(names):
+        ps = list(rng.choice(games.ULP_OFF))
+        rng.shuffle(ps)
+        ulp = {"rewards": [1, 2, 3, 4, 0], "players": ["Probabilistic"] * 5,
+               "transition_list": [[(float(ps[0]), 1), (float(ps[1]), 2), (float(ps[2]), 3)], [(1, 4)], [(1, 4)], [(1, 4)], [(1, 4)]], "final_states": [4]}
+        pool.insert(rng.randrange(len(pool) + 1), (names[len(pool)], "solvable", ulp))
     # a game may carry its own prune_states key (it is a constructor parameter); the batch run must still do both modes
     for i, (n_, k_, g_) in enumerate(pool):
         if not k_.startswith("malformed") and rng.random() < 0.25:
